@@ -13,7 +13,7 @@ SECOND = ['VersionMismatch', 'AuthnFailed', 'InvalidAttrNameOrValue', 'InvalidNa
           'ResourceNotRecognized', 'TooManyResponses', 'UnknownAttrProfile', 'UnknownPrincipal', 'UnsupportedBinding',
           'Responder']
 TOP = ['Success', 'Requester', 'Responder', 'VersionMismatch', 'urn:vp:unknown-status', None, 'NOSTATUS']
-VERSIONS = ['2.0', '1.0', '1.1', '2.1', '3.0', 'two', '']
+VERSIONS = ['2.0', '1.0', '1.1', '2.1', '3.0', 'two', '', '2', '2.00', '02.0', ' 2.0', '2.0 ', '2e0', '+2.0', 'NaN', '2,0', '2.0.0']
 PAYLOAD = ['none', 'assertion-signed', 'both-signed']
 
 
